@@ -300,8 +300,11 @@ Targets(o, t, c) ==
     [] o.a = "step" -> TRUE
     [] OTHER -> FALSE
 
+Aimed(o) == o.a \in {"register_cell", "del_cell", "add_monitor", "del_monitor", "ttrain", "clear", "drop"}
 IsolationAt(st, o) ==
-  \A mo \in MApply(st, o) : \A t \in 1..NT(st), c \in 1..NC, m \in 1..6 :
+  IF o.a = "step" THEN TRUE
+  ELSE IF ~Aimed(o) THEN \A mo \in MApply(st, o) : mo.st.pool = st.pool /\ mo.st.ph = st.ph
+  ELSE \A mo \in MApply(st, o) : \A t \in 1..NT(st), c \in 1..NC, m \in 1..6 :
      (~Targets(o, t, c) /\ st.pool[t][c][m] # 0) =>
         /\ mo.st.pool[t][c][m] # 0
         /\ mo.st.ph[mo.st.pool[t][c][m]] = st.ph[st.pool[t][c][m]]
